@@ -758,9 +758,12 @@ func (n *NaturalLanguageValues) UnmarshalJSON(data []byte) error {
 
 // UnmarshalText tries to load the NaturalLanguage array from the incoming Text value
 func (n *NaturalLanguageValues) UnmarshalText(data []byte) error {
+	if len(data) == 0 {
+		return nil
+	}
 	if data[0] == '"' {
 		// a quoted string - loading it to c.URL
-		if data[len(data)-1] != '"' {
+		if len(data) < 2 || data[len(data)-1] != '"' {
 			return fmt.Errorf("invalid string value when unmarshaling %T value", n)
 		}
 		n.Append(LangRef(NilLangRef), Content(data[1:len(data)-1]))
